@@ -496,7 +496,7 @@ def run(ctx: vlib.Ctx):
     correspondence(ctx)
     broken = bool(ctx.unshown)
     names_oracle(ctx)
-    n_s, n_v = ctx.budget(160, 2200), ctx.budget(5, 8)
+    n_s, n_v = ctx.budget(160, 1400), ctx.budget(5, 8)
     if broken:      # a proof obligation or the correspondence broke: search harder for a failing input
         n_s = ctx.budget(260, 3000)
     law_fail = oracle(ctx, n_s, n_v)
